@@ -19,6 +19,7 @@ _ORIG = {}
 _ACTIVE = None  # the active RngRun or None
 _INSTALLED = False
 ESCAPES = []  # tripwire log: (what, site)
+SOFT_ESCAPES = []  # library code asked the OS for entropy (unseeded generator); reported by C09
 
 
 def _site():
@@ -53,7 +54,7 @@ class RngRun:
 
     def __init__(self, seed, record=1, extremes=None, interleave=None):
         self.seed = int(seed)
-        self.rs = np.random.RandomState(self.seed)
+        self.rs = _ORIG.get("RandomState", np.random.RandomState)(self.seed)
         self.record = record
         self.n = 0
         self.h = hashlib.blake2b(digest_size=16)
@@ -66,6 +67,10 @@ class RngRun:
         self.consec = 0
         self.max_consec = 0
         self.marks = []  # (label, n) placed by the world at stage boundaries
+
+    def derive_seed(self):
+        self.n_derived = getattr(self, "n_derived", 0) + 1
+        return (self.seed * 1000003 + self.n_derived * 7919) % (2**32)
 
     def mark(self, label):
         self.marks.append((label, self.n))
@@ -164,10 +169,28 @@ def install():
         if _ACTIVE is not None and seed is None:
             s = _site()
             if s != "caller":
-                ESCAPES.append(("default_rng(None)", s))
+                # entropy taken from the OS by library code: keep the run replayable (derived seed) and
+                # record it; C09 reports it, the other properties are not about it
+                SOFT_ESCAPES.append(("default_rng(None)", s))
+                seed = _ACTIVE.derive_seed()
         return _orig_default_rng(seed, *a, **k)
 
     np.random.default_rng = default_rng
+
+    _OrigRS = np.random.RandomState
+    _ORIG["RandomState"] = _OrigRS
+
+    class RandomState(_OrigRS):
+        def __init__(self, seed=None, *a, **k):
+            if seed is None and _ACTIVE is not None:
+                s = _site()
+                if s != "caller":
+                    SOFT_ESCAPES.append(("RandomState(None)", s))
+                    seed = _ACTIVE.derive_seed()
+            super().__init__(seed, *a, **k)
+
+    RandomState.__module__ = _OrigRS.__module__
+    np.random.RandomState = RandomState
     for name in ("ranf", "sample"):
         f = getattr(np.random, name, None)
         if callable(f) and name not in _ORIG:
